@@ -53,6 +53,21 @@ CHECKS = {
                   "the TLA+ specifications"),
 }
 
+CHECKS["C20"] = dict(
+    category="model_checking", design="DESIGN.md §4 C20, §9",
+    text="Deadlock freedom: the lock program (sequence of acquire/release of named lock instances) of every request kind "
+         "is RECORDED from the real code through the vls_verif traced mutex; Locks.tla runs every pair (thorough: triple) "
+         "of programs under all interleavings with non-re-entrant locks; every deadlocked model state is replayed on real "
+         "threads with a controller that holds each thread at the model's stop point, and only a deadlock that the real "
+         "threads reproduce (watchdog) is reported. Atomicity: pairs of channel requests taken from TLC-simulated "
+         "behaviours of Channel.tla (plus hand-picked racing pairs) run concurrently on the real signer with one thread "
+         "held before each of its lock acquisitions in turn; ConcChannel.tla (TLC) checks that replies and final state "
+         "equal a;b or b;a as executed sequentially by the implementation and as given by Channel!Step.",
+    technique="lock programs recorded from the real code model-checked in TLA+ (all interleavings); model deadlocks "
+              "replayed on real threads; concurrent runs under imposed schedules checked for linearizability by TLC",
+    note="the recorded lock programs are schedule-independent for the recorded data situations; log level off; the traced "
+         "mutex wrapper behaves like std::sync::Mutex; TLC; small scope (2-3 threads, one node, two channels)")
+
 NOT_APPLICABLE = {
     "C19": "pure encode/decode fidelity of ~100 derive-generated message types: no state machine to specify; outside what "
            "a TLA+ model can decide (see DESIGN.md §4 C19)",
